@@ -161,9 +161,13 @@ def report(prop, tier, seed, results, known, wall) -> int:
     # a clause may be declared to count for some of the harness's properties only
     for r in results:
         cp = getattr(REGISTRY.get(r['id']), 'clause_props', None) or {}
-        if cp:
-            def counts(name, r=r, cp=cp):
+        pc = (getattr(REGISTRY.get(r['id']), 'prop_clauses', None) or {}).get(prop)
+        if cp or pc is not None:
+            def counts(name, r=r, cp=cp, pc=pc):
                 clause = name.split('.', 1)[1] if '.' in name else name
+                if pc is not None and not any(clause == c or clause.startswith(c + '.') for c in pc) \
+                        and not clause.startswith('loop[') and clause != 'no_unbound_variable':
+                    return False
                 for c, ps in cp.items():
                     if clause == c or clause.startswith(c + '.'):
                         return prop in ps
